@@ -54,6 +54,10 @@ pub struct WireInner {
     /// the driver's last poll_read returned Pending (it has consumed everything available)
     pub reader_idle: bool,
     pub read_calls: usize,
+    /// polls after the terminal read event was already reported
+    pub polls_after_end: usize,
+    /// the reader kept polling a finished transport (livelock); reads now stay Pending
+    pub spinning: bool,
 }
 
 #[derive(Clone, Debug)]
@@ -105,6 +109,15 @@ impl AsyncRead for ScriptedIo {
                 }
             }
             return Poll::Ready(Ok(()));
+        }
+        if w.read_end.is_some() && w.read_end_seen {
+            w.polls_after_end += 1;
+            if w.polls_after_end > 2000 {
+                // A reader that polls a finished transport thousands of times is livelocked.
+                // Park it so that the virtual-clock watchdog can expose the hang deterministically.
+                w.spinning = true;
+                return Poll::Pending;
+            }
         }
         match w.read_end {
             Some(ReadEnd::Eof) => {
